@@ -1336,3 +1336,71 @@ Proof.
   - rewrite Ha. split; [exact Hid|]. rewrite <- Ha. exact Hb.
   - rewrite Hc in Hid. discriminate.
 Qed.
+
+(* ------------------------------------------------------------------ *)
+(* A second connection of a connected router (E2eModel, fifth part).   *)
+
+(* the accept loop hands out the id the register holds for (unit, address) - whatever router_states holds *)
+Theorem reconnect_keeps_id_world w k rid rest :
+  reg_find_routers (w_reg w) (router_query (w_unit w) k) = rid :: rest ->
+  let w' := (wstep w (WConnect k)).1 in
+  w_routers w' !! k = Some (rid, sm_init) /\ w_reg w' = w_reg w /\
+  (forall j, j <> k -> w_routers w' !! j = w_routers w !! j).
+Proof.
+  intros Hf w'. subst w'. cbn [wstep]. unfold find_or_register. unfold reg_find_routers in Hf. rewrite Hf.
+  cbn [fst w_routers w_reg]. split; [apply lookup_insert|]. split; [reflexivity|].
+  intros j Hj. apply lookup_insert_ne. congruence.
+Qed.
+
+Theorem reconnect_before_cleanup_keeps_id st k rid s :
+  d_live st k = Some (rid, s) -> d_old st k = None ->
+  reg_find_routers (w_reg (es_w (ds_e st))) (router_query (w_unit (es_w (ds_e st))) k) = [rid] ->
+  let st' := d_step st (DSecond k) in
+  d_rid st' k = Some rid /\ d_old st' k = Some rid /\
+  w_reg (es_w (ds_e st')) = w_reg (es_w (ds_e st)) /\
+  reg_find_routers (w_reg (es_w (ds_e st'))) (router_query (w_unit (es_w (ds_e st'))) k) = [rid] /\
+  reg_ids_for_parent (w_reg (es_w (ds_e st'))) (w_unit (es_w (ds_e st'))) = reg_ids_for_parent (w_reg (es_w (ds_e st))) (w_unit (es_w (ds_e st))).
+Proof.
+  intros Hl Ho Hf st'. subst st'. unfold d_old in *. cbn [d_step]. rewrite Hl, Ho.
+  unfold d_rid, d_live, d_old. cbn [ds_e ds_old]. rewrite e_step_w.
+  destruct (reconnect_keeps_id_world (es_w (ds_e st)) k rid [] Hf) as (H1 & H2 & _).
+  rewrite H1, H2. split; [reflexivity|]. split; [apply lookup_insert|]. split; [reflexivity|].
+  assert (Hu : w_unit (wstep (es_w (ds_e st)) (WConnect k)).1 = w_unit (es_w (ds_e st))).
+  { cbn [wstep]. destruct (find_or_register _ _ _). reflexivity. }
+  rewrite Hu. split; [exact Hf|reflexivity].
+Qed.
+
+(* seeded change C14-c2 as a model: two ids for one (unit, address) *)
+Theorem reuse_only_when_not_live_refuted :
+  let w1 := (wstep world_init (WConnect 0)).1 in
+  let '(id2, r2) := accept_guarded w1 0 in
+  option_map fst (w_routers w1 !! 0%N) = Some 2%N /\ id2 = 3%N /\
+  length (reg_find_routers r2 (router_query (w_unit w1) 0)) = 2%nat /\
+  length (reg_ids_for_parent r2 (w_unit w1)) = 2%nat /\
+  option_map fst (w_routers (wstep w1 (WConnect 0)).1 !! 0%N) = Some 2%N /\ w_reg (wstep w1 (WConnect 0)).1 = w_reg w1.
+Proof. vm_compute. repeat split; reflexivity. Qed.
+
+(* the unchanged code when the OLD connection ends after the new one is up: known finding C14-old-task-removes-new-session *)
+Definition d_example : list dop :=
+  [DE (EW (WConnect 0)); DE (EW (WMsg 0 MInit)); DE (EW (WMsg 0 (MPeerUp (0, 0, 0, 0, 1, 65001, 1)%N false)));
+   DE (EW (WMsg 0 (MRoute (0, 0, 0, 0, 1, 65001, 1)%N (Some (URoutes 0 [1%N] 3 0 [])))));
+   DSecond 0; DE (EW (WMsg 0 MInit)); DE (EW (WMsg 0 (MPeerUp (0, 0, 0, 0, 1, 65001, 1)%N false)));
+   DE (EW (WMsg 0 (MRoute (0, 0, 0, 0, 1, 65001, 1)%N (Some (URoutes 0 [2%N] 4 0 [])))))].
+
+Theorem old_task_removes_new_session_refuted :
+  let st := d_run (d_init SNone 0) (d_example ++ [DOldEnds 0]) in
+  let x := (0%N, (0, 0, 0, 0, 1, 65001, 1)%N) in
+  d_rid st 0 = Some 2%N /\
+  map (fun e : N * bool * N => (e.1.2, e.2)) (rib_query (ru_rib (es_rib (ds_e st))) 0 2) = [(false, 4%N)] /\
+  s_rib (es_s (ds_e st)) !! (0%N, 2%N, x) = Some (true, 4%N) /\
+  s_rib (es_s (ds_e st)) !! (0%N, 1%N, x) = Some (false, 3%N) /\
+  d_listed_code st = 0%N /\ d_listed_spec st = 1%N.
+Proof. vm_compute. repeat split; reflexivity. Qed.
+
+Theorem second_connection_example :
+  let st := d_run (d_init SNone 0) d_example in
+  d_rid st 0 = Some 2%N /\ d_old st 0 = Some 2%N /\ d_listed_code st = 1%N /\
+  length (reg_find_routers (w_reg (es_w (ds_e st))) (router_query 1 0)) = 1%nat /\
+  map (fun e : N * bool * N => (e.1.2, e.2)) (rib_query (ru_rib (es_rib (ds_e st))) 0 1) = [(true, 3%N)] /\
+  map (fun e : N * bool * N => (e.1.2, e.2)) (rib_query (ru_rib (es_rib (ds_e st))) 0 2) = [(true, 4%N)].
+Proof. vm_compute. repeat split; reflexivity. Qed.
